@@ -446,6 +446,8 @@ let handle (line : string) : string =
                       | Some (h, c, i, g, k, false) -> sending := Some (h, c, i, g, k, true); ms := mstep !ms (MPeer (nat_of_int c, WireOut h)); drain c
                       | _ -> ()) in
        let finish () = (wire (); sending := None) in
+       let wired_frames = ref 0 in                      (* whole request frames the peers end up with *)
+       let faulted = ref false in
        let resolved_at : (int * int) list ref = ref [] in
        let wstate g = (let (c, i) = List.assoc g !sends in List.nth (outcomes (cst c)) i) in
        let observe k =
@@ -463,7 +465,16 @@ let handle (line : string) : string =
                    sends := (g, (c, i)) :: !sends; incr nsends;
                    apply_send (Register h);
                    (* on a closed table send_message returns Err at once: nothing is blocked, no future exists *)
-                   if reg then sending := Some (h, c, i, g, 0, false) else begin sending := None; errs := g :: !errs end
+                   if reg then begin sending := Some (h, c, i, g, 0, false); incr wired_frames end else begin sending := None; errs := g :: !errs end
+          | "RX" -> (* a request that cannot be encoded: registered (if the table is open), then send_message returns Err *)
+                    finish (); let h = next_n t in
+                    let c = curc () in
+                    let i = int_of_nat (cst c).nw in let reg = not (cst c).closed in
+                    let g = !nsends in
+                    sends := (g, (c, i)) :: !sends; incr nsends; errs := g :: !errs;
+                    apply_send (Register h);
+                    if reg then begin labels := (g, "ERR") :: !labels; ms := mstep !ms (MPeer (nat_of_int c, Abandon (nat_of_int i))); drain c end
+          | "PL" -> let h = next_n t in let _ = next t in apply_peer !sel (Peer h)
           | "G" -> let k = int_of_string ("0x" ^ next t) in
                    if k > 0 then begin
                      wire ();
@@ -472,7 +483,7 @@ let handle (line : string) : string =
                       | None -> ())
                    end
           | "W" -> finish ()
-          | "WE" -> (match !sending with
+          | "WE" -> faulted := true; (match !sending with
                      | Some (_, c, i, g, _, _) -> labels := (g, "ERR") :: !labels; errs := g :: !errs; sending := None;
                                                   ms := mstep !ms (MPeer (nat_of_int c, Abandon (nat_of_int i))); drain c
                      | _ -> ())
@@ -519,6 +530,7 @@ let handle (line : string) : string =
             | WPending0 -> Buffer.add_string b " PENDING")
        done;
        Buffer.add_string b (if (cst (curc ())).closed then " READER stopped" else " READER alive");
+       if not !faulted then Buffer.add_string b (Printf.sprintf " WIRE ok:%d" !wired_frames);
        if curc () > 1 then begin
          Buffer.add_string b " ALL";
          for c = 1 to curc () do Buffer.add_string b (if (cst c).closed then " stopped" else " alive") done
